@@ -346,6 +346,9 @@ func textualNullAdditions(before, after string) bool {
 			i++
 		}
 		v := strings.TrimSpace(l)
+		if k := strings.Index(v, " #"); k >= 0 {
+			v = strings.TrimSpace(v[:k]) // a created key copied from a commented node carries its comment
+		}
 		for again := true; again; {
 			again = false
 			for _, pre := range []string{"- ", "? ", ": "} {
